@@ -163,14 +163,14 @@ def gen_cases(cat, tier, seed):
             ids = rnd.sample(group, size)
             out.append(ids)
         return out
-    for size, count in ((2, 1500 * scale), (3, 1000 * scale)):
+    for size, count in ((2, (1200 if tier == "quick" else 1500 * scale)), (3, (800 if tier == "quick" else 1000 * scale))):
         for ids in subsets(a1 + var, size, count):
             orders = list(itertools.permutations(ids)) if tier == "thorough" else [tuple(ids)]
             for a in relevant_args(cat, ids, 0, pool, rnd, 2):
                 for o in (orders if tier == "thorough" and rnd.random() < 0.3 else orders[:1]):
                     route = "script" if rnd.random() < 0.25 else "direct"
                     cases.append("D %d %s %s | %s" % (rnd.choice([0, 0, 1]), route, ",".join(map(str, o)), a))
-    for group, n, count in ((a2, 2, 1500 * scale), (a3, 3, 500 * scale)):
+    for group, n, count in ((a2, 2, (1200 if tier == "quick" else 1500 * scale)), (a3, 3, (400 if tier == "quick" else 500 * scale))):
         for _ in range(count):
             ids = rnd.sample(group, rnd.choice([1, 2, 2, 3]) if len(group) >= 3 else 1)
             if rnd.random() < 0.15 and var:
